@@ -895,10 +895,19 @@ impl ArchiveIndexBuilder {
 
     /// Build index and write to writer
     pub fn build<W: Write + Seek>(mut self, mut writer: W) -> ArchiveResult<ArchiveIndex> {
+        let key_size = self.key_size as usize;
+
+        // Records, table of contents and footer all use `key_size` bytes per
+        // key: a longer key (`add_entry_full` on a builder configured for
+        // truncated keys) is cut to its first `key_size` bytes, a shorter one
+        // is zero-padded, as the table of contents below always did.
+        for entry in &mut self.entries {
+            entry.encoding_key.resize(key_size, 0);
+        }
+
         // Sort entries by encoding key
         self.entries.sort();
 
-        let key_size = self.key_size as usize;
         let entry_size = key_size + self.size_bytes as usize + self.offset_bytes as usize;
         let max_entries_per_chunk = CHUNK_SIZE / entry_size;
         let chunk_count = self.entries.len().div_ceil(max_entries_per_chunk);
@@ -1377,6 +1386,31 @@ mod tests {
 
         // Verify
         assert_eq!(original, parsed);
+    }
+
+    #[test]
+    fn test_builder_cuts_full_keys_to_the_configured_size() {
+        // 9-byte keys, as in local .idx files and truncated CDN indices
+        let mut builder = ArchiveIndexBuilder::with_config(9, 4, 4);
+        for i in 0..10u8 {
+            let mut key = [0u8; 16];
+            key[0] = i + 1;
+            key[15] = 0xEE;
+            builder.add_entry_full(key, 100 + u32::from(i), u64::from(i) * 1000);
+        }
+        let mut data = Vec::new();
+        let built = builder
+            .build(Cursor::new(&mut data))
+            .expect("Operation should succeed");
+        assert!(built.entries.iter().all(|e| e.encoding_key.len() == 9));
+
+        let parsed =
+            ArchiveIndex::parse(&mut Cursor::new(&data)).expect("Operation should succeed");
+        assert_eq!(parsed.entries.len(), 10);
+        let entry = parsed
+            .find_entry(&[3, 0, 0, 0, 0, 0, 0, 0, 0])
+            .expect("Operation should succeed");
+        assert_eq!((entry.size, entry.offset), (102, 2000));
     }
 
     #[test]
